@@ -196,11 +196,22 @@ fn apply<E: Elem, V: VecLike<E>>(slot: &mut Option<V>, world: u8, act: VAct, lab
             drop(other);
         }
         VAct::SplitOff { i } => {
-            let other = vec.v_split_off(ix(i, n));
+            let mut other = vec.v_split_off(ix(i, n));
             obs.n(other.sl().len() as i64);
             for e in other.sl() {
                 obs.el(e);
             }
+            // the halves are independent vectors: grow the head while the tail is alive and read the tail again
+            // (and the other way round); the extra elements are removed again
+            vec.v_push(E::mk(world, labels.take(), 1));
+            for e in other.sl() {
+                obs.el(e);
+            }
+            other.v_push(E::mk(world, labels.take(), 0));
+            for e in vec.sl() {
+                obs.el(e);
+            }
+            drop(vec.v_pop());
             drop(other);
         }
         VAct::Drain { r, mode } => vec.v_drain(bounds(r, n), mode, &mut obs),
